@@ -4,7 +4,8 @@ use crate::explore::Scenario;
 use crate::util::*;
 use may::coroutine;
 use may::net::{TcpListener, TcpStream, UdpSocket};
-use may::os::unix::net::{UnixDatagram, UnixStream};
+use may::io::SplitIo;
+use may::os::unix::net::{UnixDatagram, UnixListener, UnixStream};
 use std::io::{ErrorKind, Read, Write};
 use std::os::unix::io::AsRawFd;
 use std::sync::atomic::{AtomicBool, AtomicU32, AtomicU64, Ordering};
@@ -310,6 +311,252 @@ fn tcp_loopback(e: &'static Engine, workers: usize, len: usize, chunk: usize, bu
     e.note(&format!("len={}", len));
 }
 
+/// a socket path that is private to this execution (the directory is removed by the explorer at the end of the run)
+fn sock_path(tag: &str) -> String {
+    let dir = std::env::var("MAYVERIF_SOCKDIR").unwrap_or_else(|_| "/verif/target-hooks/tmp".to_string());
+    let _ = std::fs::create_dir_all(&dir);
+    let p = format!("{}/{}{}", dir, tag, std::process::id());
+    let _ = std::fs::remove_file(&p);
+    p
+}
+
+/// UnixListener: one acceptor coroutine takes `conns` connections one after the other (reading each to its end before the
+/// next accept, so that a later connection becomes ready while the acceptor is busy elsewhere: the listener's readiness
+/// has to be remembered); the clients are coroutines or plain threads
+fn unix_listener(e: &'static Engine, workers: usize, ck: char, conns: usize, len: usize, bufsz: usize) {
+    rt_init(workers);
+    static CLOSED: [AtomicBool; 2] = [AtomicBool::new(false), AtomicBool::new(false)];
+    static EARLY: AtomicBool = AtomicBool::new(false);
+    let path = sock_path("l");
+    let l = UnixListener::bind(&path).unwrap();
+    let data = payload(len);
+    e.begin();
+    let srv = go!(move || {
+        let mut got = vec![];
+        for _ in 0..conns {
+            let (mut s, _) = match l.accept() {
+                Ok(x) => x,
+                Err(err) => e.fail("accept_error", &format!("accept failed: {}", err)),
+            };
+            // which client this is is told by the first byte
+            let mut first = [0u8; 1];
+            let c = match s.read(&mut first) {
+                Ok(1) => first[0] as usize,
+                Ok(_) => e.fail("early_eof", "read returned 0 before the client wrote its first byte"),
+                Err(err) => e.fail("read_error", &format!("read failed: {}", err)),
+            };
+            match read_all(&mut s, bufsz, &CLOSED[c % 2], &EARLY) {
+                Ok(v) => got.push((c, v)),
+                Err(err) => e.fail("read_error", &format!("read failed: {}", err)),
+            }
+        }
+        got
+    });
+    let mut hs = vec![];
+    for c in 0..conns {
+        let d = data.clone();
+        let path = path.clone();
+        hs.push(spawn_part(e, ck, move || {
+            let mut s = match UnixStream::connect(&path) {
+                Ok(s) => s,
+                Err(err) => e.fail("connect_error", &format!("connect failed: {}", err)),
+            };
+            if let Err(err) = s.write_all(&[c as u8]).and_then(|_| s.write_all(&d)) {
+                e.fail("write_error", &format!("write failed: {}", err));
+            }
+            CLOSED[c].store(true, Ordering::SeqCst);
+            drop(s);
+        }));
+    }
+    for h in hs {
+        if join_part(e, h).is_err() {
+            e.fail("unexpected_panic", "a client panicked");
+        }
+    }
+    let mut got = srv.join().unwrap_or_else(|_| e.fail("unexpected_panic", "the acceptor panicked"));
+    let _ = std::fs::remove_file(&path);
+    if EARLY.load(Ordering::SeqCst) {
+        e.fail("early_eof", "read returned 0 before the peer closed the stream");
+    }
+    got.sort();
+    if got.len() != conns || got.iter().enumerate().any(|(i, (c, v))| *c != i || *v != data) {
+        e.fail("stream_corrupted", &format!("{} connections sent {} bytes each, the acceptor received {:?}", conns, data.len(), got.iter().map(|(c, v)| (*c, v.len())).collect::<Vec<_>>()));
+    }
+    e.note(&format!("{:?}", got.iter().map(|(c, _)| *c).collect::<Vec<_>>()));
+}
+
+/// split(): both ends of a UnixStream pair are split into a read half and a write half (the write half is a duplicate
+/// descriptor registered for write readiness only, the read half is re-registered for read readiness only) and used
+/// full duplex by four coroutines; each direction ends with shutdown(Write)
+fn unix_split(e: &'static Engine, workers: usize, len: usize, bufsz: usize, small_buffers: bool) {
+    rt_init(workers);
+    static CLOSED: [AtomicBool; 2] = [AtomicBool::new(false), AtomicBool::new(false)];
+    static EARLY: AtomicBool = AtomicBool::new(false);
+    let (a, b) = UnixStream::pair().unwrap();
+    if small_buffers {
+        set_small_buffers(a.as_raw_fd());
+        set_small_buffers(b.as_raw_fd());
+    }
+    let d = [payload(len), payload(len + 1).into_iter().rev().collect::<Vec<u8>>()];
+    let results: Arc<Mutex<Vec<Option<Vec<u8>>>>> = Arc::new(Mutex::new(vec![None; 2]));
+    e.begin();
+    let mut hs = vec![];
+    for (k, s) in [a, b].into_iter().enumerate() {
+        let (mut r, mut w) = match s.split() {
+            Ok(x) => x,
+            Err(err) => e.fail("split_error", &format!("split failed: {}", err)),
+        };
+        let out = d[k].clone();
+        hs.push(go!(move || {
+            if let Err(err) = w.write_all(&out) {
+                e.fail("write_error", &format!("write failed: {}", err));
+            }
+            CLOSED[k].store(true, Ordering::SeqCst);
+            let _ = w.inner().shutdown(std::net::Shutdown::Write);
+        }));
+        let results = results.clone();
+        // end k reads what end 1-k writes
+        hs.push(go!(move || match read_all(&mut r, bufsz, &CLOSED[1 - k], &EARLY) {
+            Ok(v) => results.lock().unwrap_or_else(|e| e.into_inner())[1 - k] = Some(v),
+            Err(err) => e.fail("read_error", &format!("read failed: {}", err)),
+        }));
+    }
+    for h in hs {
+        if h.join().is_err() {
+            e.fail("unexpected_panic", &format!("an I/O participant panicked: {:?}", e.panics().last()));
+        }
+    }
+    if EARLY.load(Ordering::SeqCst) {
+        e.fail("early_eof", "read returned 0 before the peer shut its write side down");
+    }
+    for (k, r) in results.lock().unwrap_or_else(|e| e.into_inner()).iter().enumerate() {
+        match r {
+            Some(v) if *v == d[k] => {}
+            Some(v) => e.fail("stream_corrupted", &format!("direction {}: sent {} bytes, received {} bytes (first difference at {:?})", k, d[k].len(), v.len(), v.iter().zip(d[k].iter()).position(|(x, y)| x != y))),
+            None => e.fail("stream_corrupted", "a reader did not deliver a result"),
+        }
+    }
+    e.note(&format!("len={}", len));
+}
+
+/// writes `d` with TcpStream::write_vectored, in slices of the given sizes, until everything is written; returns the number of calls
+fn write_vectored_all(e: &'static Engine, c: &mut TcpStream, d2: &[u8], sizes: &[usize]) -> usize {
+    let total: usize = sizes.iter().sum();
+    let mut off = 0usize;
+    let mut calls = 0usize;
+    while off < total {
+        // the slices that are left, the first one cut at `off`
+        let mut slices = vec![];
+        let mut start = 0usize;
+        for &sz in sizes {
+            let (lo, hi) = (start.max(off), start + sz);
+            if hi > lo || sz == 0 && start >= off {
+                slices.push(std::io::IoSlice::new(&d2[lo.min(hi)..hi]));
+            }
+            start = hi;
+        }
+        match c.write_vectored(&slices) {
+            Ok(0) => e.fail("write_error", "write_vectored returned 0 with bytes left"),
+            Ok(n) if off + n > total => e.fail("stream_corrupted", &format!("write_vectored reports {} bytes written, only {} were left", n, total - off)),
+            Ok(n) => off += n,
+            Err(err) => e.fail("write_error", &format!("write_vectored failed: {}", err)),
+        }
+        calls += 1;
+    }
+    calls
+}
+
+/// the blocking branch of write_vectored needs back pressure, and loopback TCP with full buffers is not synchronous
+/// (acknowledgements and window updates arrive when the kernel pleases: executions do not replay). A may TcpStream built
+/// with from_raw_fd over one end of an AF_UNIX stream pair runs the same code (src/net/tcp.rs write_vectored,
+/// socket_write_vectored.rs) over a kernel object that is synchronous.
+fn tcpstream_over_unix_vectored(e: &'static Engine, workers: usize, wk: char, sizes: &'static [usize], bufsz: usize) {
+    use std::os::unix::io::{FromRawFd, IntoRawFd};
+    rt_init(workers);
+    static CLOSED: AtomicBool = AtomicBool::new(false);
+    static EARLY: AtomicBool = AtomicBool::new(false);
+    let (a, b) = std::os::unix::net::UnixStream::pair().unwrap();
+    set_small_buffers(a.as_raw_fd());
+    set_small_buffers(b.as_raw_fd());
+    let mut w = unsafe { TcpStream::from_raw_fd(a.into_raw_fd()) };
+    let mut r = unsafe { UnixStream::from_raw_fd(b.into_raw_fd()) };
+    let total: usize = sizes.iter().sum();
+    let data = payload(total);
+    let d2 = data.clone();
+    e.begin();
+    let rd = go!(move || match read_all(&mut r, bufsz, &CLOSED, &EARLY) {
+        Ok(v) => v,
+        Err(err) => e.fail("read_error", &format!("read failed: {}", err)),
+    });
+    let wr = spawn_part(e, wk, move || {
+        let calls = write_vectored_all(e, &mut w, &d2, sizes);
+        e.note(&format!("calls={}", calls.min(3)));
+        CLOSED.store(true, Ordering::SeqCst);
+        drop(w);
+    });
+    if join_part(e, wr).is_err() {
+        e.fail("unexpected_panic", "the writer panicked");
+    }
+    let got = rd.join().unwrap_or_else(|_| e.fail("unexpected_panic", "the reader panicked"));
+    if EARLY.load(Ordering::SeqCst) {
+        e.fail("early_eof", "read returned 0 before the peer closed the stream");
+    }
+    if got != data {
+        e.fail("stream_corrupted", &format!("sent {} bytes, received {} bytes (first difference at {:?})", data.len(), got.len(), got.iter().zip(data.iter()).position(|(x, y)| x != y)));
+    }
+}
+
+/// TcpStream::write_vectored with slices of the given sizes, repeated until everything is written (a vectored write may
+/// be partial); with small socket buffers and a payload of several buffers the writer blocks in the vectored path
+fn tcp_vectored(e: &'static Engine, workers: usize, sizes: &'static [usize], bufsz: usize, small_buffers: bool, client_thread: bool) {
+    rt_init(workers);
+    static CLOSED: AtomicBool = AtomicBool::new(false);
+    static EARLY: AtomicBool = AtomicBool::new(false);
+    let l = TcpListener::bind("127.0.0.1:0").unwrap();
+    if small_buffers {
+        set_small_buffers(l.as_raw_fd());
+    }
+    let addr = l.local_addr().unwrap();
+    let total: usize = sizes.iter().sum();
+    let data = payload(total);
+    let d2 = data.clone();
+    e.begin();
+    let srv = go!(move || {
+        let (mut s, _) = match l.accept() {
+            Ok(x) => x,
+            Err(err) => e.fail("accept_error", &format!("accept failed: {}", err)),
+        };
+        match read_all(&mut s, bufsz, &CLOSED, &EARLY) {
+            Ok(v) => v,
+            Err(err) => e.fail("read_error", &format!("read failed: {}", err)),
+        }
+    });
+    let cli = spawn_part(e, if client_thread { 'T' } else { 'C' }, move || {
+        let mut c = match TcpStream::connect(addr) {
+            Ok(c) => c,
+            Err(err) => e.fail("connect_error", &format!("connect failed: {}", err)),
+        };
+        if small_buffers {
+            set_small_buffers(c.as_raw_fd());
+        }
+        let calls = write_vectored_all(e, &mut c, &d2, sizes);
+        e.note(&format!("calls={}", calls.min(3)));
+        CLOSED.store(true, Ordering::SeqCst);
+        drop(c);
+    });
+    if join_part(e, cli).is_err() {
+        e.fail("unexpected_panic", "the client panicked");
+    }
+    let got = srv.join().unwrap_or_else(|_| e.fail("unexpected_panic", "the server panicked"));
+    if EARLY.load(Ordering::SeqCst) {
+        e.fail("early_eof", "read returned 0 before the peer closed the stream");
+    }
+    if got != data {
+        e.fail("stream_corrupted", &format!("sent {} bytes, received {} bytes (first difference at {:?})", data.len(), got.len(), got.iter().zip(data.iter()).position(|(x, y)| x != y)));
+    }
+}
+
+
 /// datagram boundaries: Unix datagram pair or two UDP sockets on loopback
 fn datagrams(e: &'static Engine, workers: usize, udp: bool, sizes: &'static [usize], receiver_thread: bool) {
     rt_init(workers);
@@ -506,6 +753,7 @@ fn read_timeout(e: &'static Engine, workers: usize, d_ns: u64, at_ns: &'static [
 #[derive(Clone, Copy, PartialEq, Debug)]
 enum Blocked {
     Read,
+    TimedRead,
     Accept,
     UdpRecv,
 }
@@ -519,6 +767,19 @@ fn cancel_io(e: &'static Engine, workers: usize, what: Blocked) {
     let t = match what {
         Blocked::Read => {
             let (a, mut b) = UnixStream::pair().unwrap();
+            FD.store(b.as_raw_fd() as u32, Ordering::SeqCst);
+            go!(move || {
+                let _keep_peer = a;
+                let _t = Tracked::new(1);
+                let mut buf = [0u8; 4];
+                let _ = b.read(&mut buf);
+                coroutine::sleep(Duration::from_millis(1));
+            })
+        }
+        Blocked::TimedRead => {
+            // the read has a timeout armed when it is cancelled: the timer entry outlives the socket
+            let (a, mut b) = UnixStream::pair().unwrap();
+            b.set_read_timeout(Some(Duration::from_millis(2))).unwrap();
             FD.store(b.as_raw_fd() as u32, Ordering::SeqCst);
             go!(move || {
                 let _keep_peer = a;
@@ -571,6 +832,26 @@ fn cancel_io(e: &'static Engine, workers: usize, what: Blocked) {
         _ => e.fail("bystander_hurt", "another connection's I/O was disturbed by the cancellation"),
     }
     bw.join().ok();
+    if matches!(what, Blocked::TimedRead) {
+        // the runtime outlives the deadline of the cancelled read; sockets created meanwhile (their event data may
+        // reuse the memory of the closed one) do untimed I/O and must not see anything of it
+        let (mut p, mut q) = UnixStream::pair().unwrap();
+        let late = go!(move || {
+            let mut buf = [0u8; 1];
+            q.read(&mut buf).map(|n| (n, buf[0]))
+        });
+        let lw = go!(move || {
+            coroutine::sleep(Duration::from_millis(5));
+            p.write_all(b"z")
+        });
+        match late.join() {
+            Ok(Ok((1, b'z'))) => {}
+            Ok(Ok(x)) => e.fail("bystander_hurt", &format!("a read on a socket created after the cancellation returned {:?}", x)),
+            Ok(Err(err)) => e.fail("bystander_hurt", &format!("an untimed read on a socket created after the cancellation failed with {}", err)),
+            Err(_) => e.fail("unexpected_panic", "the late reader panicked"),
+        }
+        lw.join().ok();
+    }
     e.quiesce();
     check_drops(e, 1..=1);
     let fd = FD.load(Ordering::SeqCst) as i32;
@@ -669,6 +950,45 @@ pub fn build_c17(quick: bool) -> Vec<Scenario> {
                     unix_fd_reuse(e, 2, 'T', 'C', true)
                 }),
             ));
+        }
+        // UnixListener (bind / accept / connect by path), split halves, vectored writes
+        v.push(Scenario::new(p, "unix_listener", format!("unixlistener.C.1conn.len5.w{}", w), Arc::new(move |e| unix_listener(e, w, 'C', 1, 5, 4))));
+        v.push(Scenario::new(p, "unix_listener", format!("unixlistener.C.2conn.len3.w{}", w), Arc::new(move |e| unix_listener(e, w, 'C', 2, 3, 64))));
+        v.push(Scenario::new(p, "unix_listener", format!("unixlistener.T.2conn.len3.w{}", w), Arc::new(move |e| unix_listener(e, w, 'T', 2, 3, 64))));
+        v.push(Scenario::new(p, "unix_split", format!("unix.split.duplex.len5.buf4.w{}", w), Arc::new(move |e| unix_split(e, w, 5, 4, false))));
+        v.push(Scenario::new(p, "unix_split", format!("unix.split.duplex.backpressure.len9000.w{}", w), Arc::new(move |e| unix_split(e, w, 9000, 4096, true))));
+        v.push(Scenario::new(p, "tcp_vectored", format!("tcp.write_vectored.sizes3_0_4.buf2.w{}", w), Arc::new(move |e| tcp_vectored(e, w, &[3, 0, 4], 2, false, false))));
+        v.push(Scenario::new(p, "tcp_vectored", format!("tcpstream_over_unix.write_vectored.backpressure.C.sizes4000_0_3000_5000.w{}", w), Arc::new(move |e| tcpstream_over_unix_vectored(e, w, 'C', &[4000, 0, 3000, 5000], 4096))));
+        if w == 2 {
+            v.push(Scenario::new(
+                p,
+                "unix_listener",
+                "unixlistener.C.2conn.len3.fdshift1.w2",
+                Arc::new(move |e| {
+                    let _ = unsafe { libc::dup(0) };
+                    unix_listener(e, 2, 'C', 2, 3, 64)
+                }),
+            ));
+            v.push(Scenario::new(
+                p,
+                "unix_split",
+                "unix.split.duplex.backpressure.len9000.fdshift1.w2",
+                Arc::new(move |e| {
+                    let _ = unsafe { libc::dup(0) };
+                    unix_split(e, 2, 9000, 4096, true)
+                }),
+            ));
+            v.push(Scenario::new(p, "tcp_vectored", "tcpstream_over_unix.write_vectored.backpressure.T.sizes4000_0_3000_5000.w2", Arc::new(move |e| tcpstream_over_unix_vectored(e, 2, 'T', &[4000, 0, 3000, 5000], 4096))));
+            v.push(Scenario::new(
+                p,
+                "tcp_vectored",
+                "tcpstream_over_unix.write_vectored.backpressure.C.sizes4000_0_3000_5000.fdshift1.w2",
+                Arc::new(move |e| {
+                    let _ = unsafe { libc::dup(0) };
+                    tcpstream_over_unix_vectored(e, 2, 'C', &[4000, 0, 3000, 5000], 4096)
+                }),
+            ));
+            v.push(Scenario::new(p, "tcp_vectored", "tcp.write_vectored.thread_client.sizes3_0_4.buf2.w2", Arc::new(move |e| tcp_vectored(e, 2, &[3, 0, 4], 2, false, true))));
         }
         // plain threads wait in std::thread::park, which may return spuriously
         v.push(Scenario::new(p, "thread_io_spurious_park", format!("unix.CT.len5.chunk1.buf64.spurious_park.w{}", w), Arc::new(move |e| unix_stream(e, w, 'C', 'T', 5, 1, 64, false, 1))).spurious());
@@ -772,7 +1092,7 @@ pub fn build_c18(quick: bool) -> Vec<Scenario> {
         v.push(Scenario::new(p, "read_timeout", format!("tcp.read_timeout.1500000ns.never.w{}", w), Arc::new(move |e| read_timeout(e, w, 3 * MS / 2, &[0], 0, true))).t2());
         v.push(Scenario::new(p, "stale_timer", format!("tcp.read_timeout.2ms.read_meets_data_then_never.w{}", w), Arc::new(move |e| read_timeout(e, w, 2 * MS, &[MS / 2, 0], MS / 2, true))).t2().bound(2));
         v.push(Scenario::new(p, "udp_timeout", format!("udp.recv_from_meets_deadline.then_recv.2ms.w{}", w), Arc::new(move |e| udp_timeout_then_recv(e, w, 2 * MS))).t2().bound(2));
-        for what in [Blocked::Read, Blocked::Accept, Blocked::UdpRecv] {
+        for what in [Blocked::Read, Blocked::TimedRead, Blocked::Accept, Blocked::UdpRecv] {
             v.push(Scenario::new(p, "cancel_io", format!("cancel_io.{:?}.w{}", what, w).to_lowercase(), Arc::new(move |e| cancel_io(e, w, what))));
         }
     }
